@@ -345,6 +345,19 @@ Theorem C16_js_wbr_only : forall s n, remove_tok wbr (u_insert_word_breaks s n) 
 Proof. exact u_wbr_only. Qed.
 Print Assumptions C16_js_wbr_only.
 
+(* no <wbr> inside a character reference, for every limit >= 1: the output is a concatenation of units,
+   each <wbr> or the whole escaped image of one code unit *)
+Theorem C16_js_wbr_units : forall s maxc, (1 <= maxc)%Z ->
+  exists us, Forall u_iwb_unit us /\ u_insert_word_breaks s maxc = concat_b us.
+Proof. exact u_wbr_units. Qed.
+Print Assumptions C16_js_wbr_units.
+
+(* the limit must be >= 1: with 0 the shim breaks inside the reference (outside the statement's
+   "in-range integer arguments"; the Go directive does not: it escapes rune by rune) *)
+Example C16_js_wbr_limit_zero :
+  u_insert_word_breaks [60] 0 = b "<wbr>&<wbr>l<wbr>t<wbr>;" /\ insert_word_breaks [60] 0 = b "<wbr>&lt;".
+Proof. vm_compute. split; reflexivity. Qed.
+
 (* apostrophe ( LF U+2028 lone-high a  ->  backslash-x27 ( backslash-n backslash-u2028 lone-high a ;
    U+1F600 (D83D DE00) encodes as %F0%9F%98%80 ; a lone surrogate makes escapeUri throw ;
    truncate backs out of a surrogate pair *)
